@@ -3,6 +3,7 @@ from . import i3_card, i1_logic, i5_comb, i4_text
 from . import oracles_design as OD
 from . import i11_api
 from . import oracles_design2 as OD2
+from . import i7_layout
 
 TB_COMMON = [
     "Lean 4.33.0 kernel (thorough tier: re-checked with leanchecker)",
@@ -57,14 +58,15 @@ REGISTRY = {
     "C18": _design_prop(OD2.oracle_c18),
     "C19": _design_prop(OD2.oracle_c19),
     "C22": _design_prop(OD2.oracle_c22),
-    "C14": _design_prop(OD2.oracle_c14),
+    "C14": dict(_design_prop(OD2.oracle_c14, quick=40), correspondence=[i7_layout.corr_layout]),
     "C15": _design_prop(OD2.oracle_c15),
     "C23": _design_prop(OD2.oracle_c23),
     "C24": _design_prop(OD2.oracle_c24),
     "C25": _design_prop(OD2.oracle_c25),
     "C26": _design_prop(OD2.oracle_c26),
     "C29": _design_prop(OD2.oracle_c29),
-    "C01": _design_prop(OD.oracle_c01),
+    "C01": dict(_design_prop(OD.oracle_c01, quick=50), correspondence=[i7_layout.corr_kinarow],
+                oracle=[OD.oracle_c01, i7_layout.oracle_kinarow]),
     "C02": _design_prop(OD.oracle_c02),
     "C03": _design_prop(OD.oracle_c03),
     "C04": _design_prop(OD.oracle_c04),
